@@ -91,6 +91,14 @@ func genC18(seed uint64, run int, tier string) Scenario {
 		if cb.Sensitive && cb.ContainsRe != "" && !strings.HasPrefix(cb.ContainsRe, "(?i)") {
 			cb.ContainsRe = w + `\s?[a-z]*`
 		}
+		if cb.ContainsRe != "" && r.IntN(3) == 0 {
+			// a text trigger and a pattern trigger on one callback (either one suffices), usually
+			// over different words
+			cb.Contains = pick(r, c18Words...)
+			if !cb.Sensitive {
+				cb.Contains = pick(r, cb.Contains, strings.ToLower(cb.Contains), strings.ToUpper(cb.Contains))
+			}
+		}
 		if r.IntN(4) == 0 {
 			cb.NotContains = pick(r, c18Words...)
 			if cb.NotContains == w {
@@ -110,6 +118,13 @@ func genC18(seed uint64, run int, tier string) Scenario {
 		}
 		if !cb.Complete {
 			cb.Write = fmt.Sprintf("zy %s_%d", word(r, digits, 1, 6), i)
+		}
+		if i == 0 && !cb.Complete && r.IntN(6) == 0 {
+			// the one shape in which "once + keeps its output + does not complete" is defined
+			// whatever arrives next: first in the list and without a veto text, so that its trigger
+			// still holds at the next evaluation, whenever that is, and the operation must end with
+			// the once error (at once if the device has nothing more to say: the callback is silent)
+			cb.Once, cb.NoReset, cb.NotContains, cb.Write = true, true, "", ""
 		}
 		op.Callbacks = append(op.Callbacks, cb)
 	}
@@ -275,7 +290,7 @@ func init() {
 			},
 			Assumptions: []string{
 				"device output is plain text with LF only",
-				"a callback keeps the accumulated output (no reset) only when it also completes the operation: otherwise its trigger persists and the outcome would depend on poll timing the property does not define",
+				"a callback keeps the accumulated output (no reset) only when it also completes the operation, or when it is a once callback without veto text at the head of the list (then the next evaluation must yield the once error whatever arrived meanwhile): otherwise its trigger persists and the outcome would depend on poll timing the property does not define",
 				"the operation is the first of the session, so the chunks delivered are the chunks evaluated",
 			},
 			QuickRuns: 2500,
